@@ -98,14 +98,29 @@ def mutableGlobals : List String := ["api/internal/plugins/builtinconfig.default
 /-- package-level variables whose address — or the shared object they point to — is handed to a call on the build path
     (outside `init`): the callee may keep state there.  (variable, callee, why it is no history channel) -/
 def globalsByRef : List (String × String × String) := [
+  ("api/internal/builtins.legalMergeOptions", "?", "read-only table (never written outside init: not in mutableGlobals)"),
+  ("api/internal/builtins.prefixFieldSpecsToSkip", "?", "read-only table (never written outside init: not in mutableGlobals)"),
+  ("api/internal/builtins.suffixFieldSpecsToSkip", "?", "read-only table (never written outside init: not in mutableGlobals)"),
   ("api/internal/plugins/builtinconfig.defaultConfig", "(*api/internal/plugins/builtinconfig.TransformerConfig).DeepCopy", "read-only: copied before use"),
   ("api/internal/plugins/builtinconfig.initDefaultConfig", "(*sync.Once).Do", "one-time initialisation of an immutable table"),
+  ("api/kv.utf8bom", "bytes.TrimPrefix", "read-only table (never written outside init: not in mutableGlobals)"),
+  ("api/resource.BuildAnnotations", "?", "read-only table (never written outside init: not in mutableGlobals)"),
   ("ext:encoding/base64.StdEncoding", "(*encoding/base64.Encoding).Encode", "immutable codec"),
   ("ext:encoding/base64.StdEncoding", "(*encoding/base64.Encoding).EncodedLen", "immutable codec"),
+  ("kyaml/fn/runtime/runtimeutil.functionAnnotationKeys", "?", "read-only table (never written outside init: not in mutableGlobals)"),
+  ("kyaml/kio.JSONMatch", "?", "read-only table (never written outside init: not in mutableGlobals)"),
+  ("kyaml/kio.requiredResourcePackageAnnotations", "?", "read-only table (never written outside init: not in mutableGlobals)"),
+  ("kyaml/openapi.customSchema", "kyaml/openapi.parse", "read under the schema lock by the caller (initSchema); written only by SetSchema under the lock"),
   ("kyaml/openapi.schemaLock", "(*sync.RWMutex).Lock", "the schema lock itself"),
   ("kyaml/openapi.schemaLock", "(*sync.RWMutex).RLock", "the schema lock itself"),
   ("kyaml/openapi.schemaLock", "(*sync.RWMutex).RUnlock", "the schema lock itself"),
-  ("kyaml/openapi.schemaLock", "(*sync.RWMutex).Unlock", "the schema lock itself")
+  ("kyaml/openapi.schemaLock", "(*sync.RWMutex).Unlock", "the schema lock itself"),
+  ("kyaml/openapi/kubernetesapi/v1_21_2._kubernetesapiV1_21_2SwaggerPb", "kyaml/openapi/kubernetesapi/v1_21_2.bindataRead", "embedded constant data"),
+  ("kyaml/openapi/kustomizationapi._kustomizationapiSwaggerJson", "kyaml/openapi/kustomizationapi.bindataRead", "embedded constant data"),
+  ("kyaml/resid.orderFirst", "?", "read-only table (never written outside init: not in mutableGlobals)"),
+  ("kyaml/resid.orderLast", "?", "read-only table (never written outside init: not in mutableGlobals)"),
+  ("kyaml/yaml.AssociativeSequenceKeys", "?", "read-only table (never written outside init: not in mutableGlobals)"),
+  ("kyaml/yaml.fieldSortOrder", "?", "read-only table (never written outside init: not in mutableGlobals)")
 ]
 
 end Kust.Reviewed
